@@ -28,6 +28,9 @@ CONSTANTS
   AllowBad,             \* TRUE: files may be unreadable (not UTF-8)
   MaxRuns, MaxFaults, MaxDev, MaxSignals, AllowKill,
   FaultOnLock,          \* TRUE: the lock open/write may fail too
+  ConfigClasses,        \* subset of {"ok","missing","invalid","nosourcedir","sourcedirfile"}: state of the configuration
+  AllowEmpty,           \* TRUE: the set of in-scope files may be empty
+  RecordHist,           \* TRUE: keep the sequence of developer edits and run requests in g.hist (replay input)
   V_FlushBeforeRename,  \* TRUE: the temp file is flushed (errors checked) before the rename
   V_FailureConsulted,   \* TRUE: a failed file makes the run exit non-zero
   V_LockOnAbort,        \* TRUE: the lock is written on every way out of pass 2
@@ -64,14 +67,14 @@ Visible == [f \in present \ bad |-> tree[f]]       \* what a scan can see
 
 Idle == [pc |-> "idle", mode |-> "none", cache |-> FALSE, cached |-> NoRef, handlers |-> FALSE,
          stop |-> FALSE, order |-> <<>>, i |-> 0, accMax |-> 0, accMissing |-> 0, counter |-> 0,
-         start |-> 0, inserted |-> 0, failure |-> FALSE, cur |-> Null, reported |-> {}]
+         start |-> 0, inserted |-> 0, failure |-> FALSE, cur |-> Null, reported |-> {}, cc |-> "ok"]
 
 SlotSeqs == UNION {[1..n -> [uid : {0}, ref : {NoRef} \cup InitRefs, kind : InitKinds]] : n \in 0..MaxSlots}
 (* initial statements get the unique identity 10 * file + position; later ones count from 100 *)
 WithUids(t) == [f \in Files |-> [j \in 1..Len(t[f]) |-> [t[f][j] EXCEPT !.uid = 10 * f + j]]]
 
 Init ==
-  /\ present \in (SUBSET Files) \ {{}}
+  /\ present \in IF AllowEmpty THEN SUBSET Files ELSE (SUBSET Files) \ {{}}
   /\ bad \in IF AllowBad THEN SUBSET present ELSE {{}}
   /\ \E t \in [Files -> SlotSeqs] :
         /\ \A f \in Files : f \notin present \/ f \in bad => t[f] = <<>>
@@ -85,17 +88,22 @@ Init ==
           exit |-> XNone, pre |-> <<>>, preLock |-> LAbsent, mode |-> "none", interrupted |-> FALSE,
           sigAfterHandlers |-> FALSE, failedUpdate |-> FALSE, cacheUsed |-> FALSE, killed |-> FALSE,
           preVisible |-> <<>>, lastCheck |-> Null, clean |-> FALSE, cleanAtStart |-> FALSE,
-          lockFault |-> FALSE, exhausted |-> FALSE]
+          lockFault |-> FALSE, exhausted |-> FALSE, mustFail |-> FALSE,
+          hist |-> IF RecordHist THEN <<[t |-> "init", tree |-> tree, lock |-> lock, present |-> present, bad |-> bad]>> ELSE <<>>]
 
 -----------------------------------------------------------------------------
 (* Start of a run: main() has parsed the arguments and read the configuration *)
-StartRun(mode, useCache) ==
+(* main.rs:40-83: a configuration that cannot be read or parsed ends the run before anything else happens;
+   a missing or non-directory source directory is detected by the finder (finder.rs:84-99) *)
+StartRun(mode, useCache, cc) ==
   /\ p.pc = "idle" /\ g.runs < MaxRuns
-  /\ p' = [Idle EXCEPT !.pc = "readlock", !.mode = mode, !.cache = useCache]
+  /\ p' = [Idle EXCEPT !.pc = IF cc \in {"missing", "invalid"} THEN "exit2" ELSE "readlock", !.mode = mode,
+                        !.cache = useCache, !.cc = cc]
   /\ g' = [g EXCEPT !.runs = @ + 1, !.faults = 0, !.sigs = 0, !.exit = XNone, !.pre = tree, !.preLock = lock,
                     !.mode = mode, !.interrupted = FALSE, !.sigAfterHandlers = FALSE, !.failedUpdate = FALSE,
                     !.cacheUsed = useCache, !.killed = FALSE, !.preVisible = Visible, !.lockFault = FALSE,
-                    !.exhausted = FALSE, !.cleanAtStart = g.clean]
+                    !.exhausted = FALSE, !.cleanAtStart = g.clean, !.mustFail = (cc # "ok" \/ present = {}),
+                    !.hist = IF RecordHist THEN Append(@, [t |-> "run", mode |-> mode, cache |-> useCache]) ELSE @]
   /\ UNCHANGED fsvars
 
 (* context.rs:153-186: the lock is consulted only when use_cache is on; a lock that cannot be
@@ -129,7 +137,7 @@ FinishInterrupted(code) ==
    An empty set of in-scope files is an error in both modes. *)
 Discover ==
   /\ p.pc = "discover"
-  /\ IF p.stop
+  /\ IF p.stop \/ p.cc \in {"nosourcedir", "sourcedirfile"} \/ present = {}
        THEN FinishInterrupted(XNonZero)
        ELSE \E o \in Perms(present) :
               /\ p' = [p EXCEPT !.order = o, !.i = 1,
@@ -333,21 +341,24 @@ DevAdd(f) ==
   /\ p.pc = "idle" /\ g.devs < MaxDev /\ f \in present \ bad /\ Len(tree[f]) < MaxSlots /\ Complete(f)
   /\ tree' = [tree EXCEPT ![f] = Append(@, [uid |-> g.nextUid, ref |-> NoRef, kind |-> "plain"])]
   /\ upto' = [upto EXCEPT ![f] = @ + 1]
-  /\ g' = [g EXCEPT !.devs = @ + 1, !.nextUid = @ + 1, !.clean = FALSE, !.lastCheck = Null]
+  /\ g' = [g EXCEPT !.devs = @ + 1, !.nextUid = @ + 1, !.clean = FALSE, !.lastCheck = Null, !.exit = XNone,
+                    !.hist = IF RecordHist THEN Append(@, [t |-> "add", f |-> f, uid |-> g.nextUid]) ELSE @]
   /\ UNCHANGED <<present, bad, lock, tmpdir, p>>
 
 DevDel(f, j) ==
   /\ p.pc = "idle" /\ g.devs < MaxDev /\ f \in present \ bad /\ j \in 1..Len(tree[f]) /\ Complete(f)
   /\ tree' = [tree EXCEPT ![f] = SubSeq(@, 1, j - 1) \o SubSeq(@, j + 1, Len(@))]
   /\ upto' = [upto EXCEPT ![f] = @ - 1]
-  /\ g' = [g EXCEPT !.devs = @ + 1, !.clean = FALSE, !.lastCheck = Null]
+  /\ g' = [g EXCEPT !.devs = @ + 1, !.clean = FALSE, !.lastCheck = Null, !.exit = XNone,
+                    !.hist = IF RecordHist THEN Append(@, [t |-> "del", f |-> f, uid |-> tree[f][j].uid]) ELSE @]
   /\ UNCHANGED <<present, bad, lock, tmpdir, p>>
 
 DevDelFile(f) ==
   /\ p.pc = "idle" /\ g.devs < MaxDev /\ f \in present /\ Cardinality(present) > 1
   /\ present' = present \ {f} /\ bad' = bad \ {f}
   /\ tree' = [tree EXCEPT ![f] = <<>>] /\ upto' = [upto EXCEPT ![f] = 1]
-  /\ g' = [g EXCEPT !.devs = @ + 1, !.clean = FALSE, !.lastCheck = Null]
+  /\ g' = [g EXCEPT !.devs = @ + 1, !.clean = FALSE, !.lastCheck = Null, !.exit = XNone,
+                    !.hist = IF RecordHist THEN Append(@, [t |-> "delfile", f |-> f]) ELSE @]
   /\ UNCHANGED <<lock, tmpdir, p>>
 
 DevAddFile(f) ==
@@ -355,7 +366,8 @@ DevAddFile(f) ==
   /\ present' = present \cup {f}
   /\ tree' = [tree EXCEPT ![f] = <<[uid |-> g.nextUid, ref |-> NoRef, kind |-> "plain"]>>]
   /\ upto' = [upto EXCEPT ![f] = 2]
-  /\ g' = [g EXCEPT !.devs = @ + 1, !.nextUid = @ + 1, !.clean = FALSE, !.lastCheck = Null]
+  /\ g' = [g EXCEPT !.devs = @ + 1, !.nextUid = @ + 1, !.clean = FALSE, !.lastCheck = Null, !.exit = XNone,
+                    !.hist = IF RecordHist THEN Append(@, [t |-> "addfile", f |-> f, uid |-> g.nextUid]) ELSE @]
   /\ UNCHANGED <<bad, lock, tmpdir, p>>
 
 ProcNext ==
@@ -363,7 +375,7 @@ ProcNext ==
   \/ CreateTmp \/ WriteSlot \/ Drain \/ FlushTmp \/ RenameTmp \/ DropTmp \/ LockTrunc \/ LockWrite \/ Exit
 
 Next ==
-  \/ \E m \in Modes, c \in CacheChoices : StartRun(m, c)
+  \/ \E m \in Modes, c \in CacheChoices, cc \in ConfigClasses : StartRun(m, c, cc)
   \/ ProcNext
   \/ \E s \in {"INT", "TERM"} : Signal(s)
   \/ Kill
@@ -386,6 +398,7 @@ ExitZeroDone == (Ended("edit") /\ g.exit = 0) => ~AnyMissing(Visible)
 (* C02 *)
 InvLockDominates == (AtEnd /\ g.cacheUsed /\ g.mode = "edit") => LockDominates(lock, g.written)
 InvNoReuse == NoReuse(g.written)
+IdleLockDominates == p.pc = "idle" => LockDominates(lock, g.written)
 (* C18 *)
 InterruptedCheckNeverPasses == (Ended("check") /\ g.interrupted /\ AnyMissing(Visible)) => g.exit # 0
 ExitsByItself == (AtEnd /\ g.sigAfterHandlers) => g.exit # XSignaled
@@ -405,6 +418,11 @@ FixpointCheck == (Ended("check") /\ g.cleanAtStart /\ NormalExit /\ ~g.interrupt
 FixpointEdit == (Ended("edit") /\ g.cleanAtStart /\ NormalExit) => (tree = g.pre /\ lock = g.preLock)
 (* C16 *)
 CacheOffLockUntouched == (p.pc # "idle" /\ ~p.cache) => lock = g.preLock
+ErrorExitChangesNothing == (AtEnd /\ g.mustFail /\ ~g.killed) => (g.exit = XNonZero /\ tree = g.pre /\ lock = g.preLock)
+CorruptLockFallsBack == (Ended("edit") /\ g.cacheUsed /\ g.preLock = LCorrupt) =>
+                          \A x \in Ids(NewPairs(g.preVisible, Visible)) : \A r \in RefsOf(g.preVisible) : x > r
+CacheDefaultOn == (Ended("edit") /\ g.exit = 0 /\ g.cacheUsed /\ NewPairs(g.preVisible, Visible) # {}) =>
+                          (lock >= 0 /\ LockDominates(lock, g.written))
 (* C04 *)
 CheckReadOnly == [][g.mode = "check" /\ p.pc # "idle" => UNCHANGED fsvars]_vars
 (* C18 liveness: a stop request leads to termination *)
